@@ -152,6 +152,15 @@ pub fn check_case(ctx: &mut Ctx, ps: &mut Parsers, case: &Case, factors: &[f64],
         Some(ScalableValue::Linear(v)) => Pre::Linear(Quantity::new(v.clone(), None)),
     }).collect();
     let pre_t: Vec<Pre> = rec0.timers.iter().map(|t| pre_of(t.quantity.as_ref())).collect();
+    if let Some(kinds) = case.params.get("source_kinds").and_then(|k| k.as_array()) {
+        let got: Vec<J> = img0["ingredients"].as_array().map(|a| a.iter().map(|i| i["quantity"]["value"]["type"].clone()).collect()).unwrap_or_default();
+        if &got != kinds {
+            let k = got.iter().zip(kinds).position(|(a, b)| a != b).unwrap_or(0);
+            ctx.violation(case, "scale", "written_kind_misread", format!("ingredient {k} {:?}: the source makes it {} but the parsed recipe says {} (all: source {kinds:?}, parsed {got:?})", rec0.ingredients.get(k).map(|i| &i.name), kinds.get(k).unwrap_or(&J::Null), got.get(k).unwrap_or(&J::Null)));
+            return;
+        }
+        ctx.count("source_kinds_agree");
+    }
     // the declared servings come from the generator's model of the source text (case parameter), not from the
     // library's accessor: "the first declared servings" is part of what is being checked
     let declared: Option<Vec<u32>> = case.params.get("declared_servings").and_then(|v| v.as_array()).map(|a| a.iter().filter_map(|x| x.as_u64().map(|x| x as u32)).collect());
@@ -314,6 +323,35 @@ pub fn check_case(ctx: &mut Ctx, ps: &mut Parsers, case: &Case, factors: &[f64],
     }
 }
 
+/// call sequence: set_servings(list) then scale_to_servings(n) must use the first entry of the list just set
+fn set_servings_sequence(ctx: &mut Ctx, ps: &mut Parsers, case: &Case, list: &[u32], n: u32) {
+    let parser = ps.parser(case.ext, &case.conv).clone();
+    let conv = parser.converter().clone();
+    let parse = || crate::core::guarded(|| parser.parse(&case.input).into_output());
+    let (Ok(Some(mut a)), Ok(Some(b))) = (parse(), parse()) else { return };
+    let mut c2 = case.clone();
+    c2.params = json!({"set_servings": list, "servings_target": n});
+    ctx.begin(&c2);
+    a.set_servings(list.to_vec());
+    if a.servings() != Some(list) {
+        ctx.violation(&c2, "servings", "set_servings_not_reported", format!("set {list:?}, servings() reports {:?}", a.servings()));
+        return;
+    }
+    let f = n as f64 / list[0] as f64;
+    match crate::core::guarded(|| (a.scale_to_servings(n, &conv), b.scale(f, &conv))) {
+        Err(p) => ctx.panic_violation(&c2, "set_servings+scale_to_servings", p),
+        Ok((x, y)) => {
+            let (fx, fy) = (x.scaled_data().map(|d| d.target.factor()), y.scaled_data().map(|d| d.target.factor()));
+            let same_amounts = serde_json::to_value(&x.ingredients).ok() == serde_json::to_value(&y.ingredients).ok();
+            if fx != fy || !same_amounts {
+                ctx.violation(&c2, "servings", "set_servings_ignored_by_scale_to_servings", format!("after set_servings({list:?}), scale_to_servings({n}) used factor {fx:?}, expected {fy:?}"));
+            } else {
+                ctx.count("set_servings_sequence_ok");
+            }
+        }
+    }
+}
+
 pub fn run(ctx: &mut Ctx) {
     let mut ps = Parsers::new();
     let n = ctx.budget(5_000, 1_200_000);
@@ -327,12 +365,24 @@ pub fn run(ctx: &mut Ctx) {
         let (ext, conv) = if extended { (Extensions::all().bits(), "bundled") } else { (0, "empty") };
         // sp.expected["data"] is the servings list the reference semantics derives from the spec (null = none)
         let declared = sp.expected.as_ref().map(|e| e["data"].clone()).unwrap_or(J::Null);
-        let case = Case::new("g1", sp.text.as_str(), ext, conv).with(json!({"declared_servings": declared}));
+        // per ingredient: the scaling kind the SOURCE asks for ("linear" / "fixed" / null) by the reference semantics —
+        // "not locked with `=`" is a statement about the source text, so the parser's own classification is not trusted
+        let kinds: J = sp.expected.as_ref().map(|e| J::Array(e["ingredients"].as_array().map(|a| a.iter().map(|i| i["quantity"]["value"]["type"].clone()).collect()).unwrap_or_default())).unwrap_or(J::Null);
+        let case = Case::new("g1", sp.text.as_str(), ext, conv).with(json!({"declared_servings": declared, "source_kinds": kinds}));
         let mut factors = vec![2.0, 0.5, 1.0 / 3.0];
         factors.push(*ctx.rng.pick(&[1.0, 7.0, 1e-6, 1e6]));
         factors.push(ctx.rng.log_uniform(1e-3, 1e3));
         let targets = [1u32, ctx.rng.range(2, 40) as u32];
         check_case(ctx, &mut ps, &case, &factors, &targets);
+        if i % 4 == 0 {
+            let list: Vec<u32> = match ctx.rng.below(3) {
+                0 => vec![ctx.rng.range(1, 12) as u32],
+                1 => vec![5, 10],
+                _ => vec![8, 4, 2],
+            };
+            let n = ctx.rng.range(1, 24) as u32;
+            set_servings_sequence(ctx, &mut ps, &case, &list, n);
+        }
     }
 }
 
